@@ -8,6 +8,10 @@ NA={
  "C18":"Static well-formedness of emitted text, a pure function of the machine configuration; no schedule, clock or fault involved (DESIGN.md §4).",
 }
 CLAIMS={
+ "C13":("exploration",
+  "The generated LIFO/FIFO module is executed clock by clock (vsim) under seeded protocol-abiding agents with stalls; per-cycle refinement to an abstract sequence, porcupine linearizability of the recorded agent histories and bounded service in a stall-free tail are checked. Seeded search over agent behaviours and configurations, not the exhaustive state exploration the property text envisages.",
+  "Trusted: vsim (2-state interpreter written for this task, self-tested on hand-computed waveforms), the agents' protocol implementation, porcupine. Registers power up as zero, reset for two clocks.",
+  "deterministic simulation of the generated HDL with seeded handshake agents; refinement + porcupine linearizability + bounded liveness","DESIGN.md §3 C13"),
  "C07":("exploration",
   "Each build tool (basm, basm+HDL generation, neuralbond, bmqsim->basm) is executed in-process under a canonical schedule and under seeded perturbations of every map iteration order and goroutine choice; artefact bytes and accept/reject decisions must be identical, mismatches are attributed to single map ranges. bondgo is covered by the same oracle in C12. Sampling, not proof.",
   "Trusted: simgen's census that every map range / goroutine / rand / time use of the instrumented packages is behind a seam (anything un-rewritable aborts the build); per-process inputs outside those seams (environment, file system layout) are fixed by the harness.",
